@@ -40,6 +40,17 @@ class Pay:
 
     def __eq__(self, o):
         if not builtins.isinstance(o, Pay):
+            # Python semantics against concrete scalars: True == 1, 1 == 1.0; "1" != 1
+            if self.kind == 'int' and builtins.isinstance(o, (bool, int, float)) and not builtins.isinstance(o, Pay):
+                if builtins.isinstance(o, float):
+                    if o != builtins.int(o):
+                        return False
+                    o = builtins.int(o)
+                if builtins.int(o) <= 0:
+                    return False
+                return self == Pay([ord(ch) for ch in builtins.str(builtins.int(o))], 'lit', 'int')
+            if self.kind == 'str' and builtins.isinstance(o, builtins.str):
+                return self == Pay([ord(ch) for ch in o], 'lit', 'str')
             return False
         if self.kind != o.kind:
             return False        # Python: 1 != "1"
@@ -89,12 +100,13 @@ class Pay:
     def replace(self, *a):
         raise Unsupported("str method on symbolic payload")
 
-    # ---- concretisation
+    # ---- concretisation (characters are code points)
     def concrete(self, eng):
         vals = [eng.value(_c(c)) if not builtins.isinstance(c, int) else c for c in self.cs]
+        text = ''.join(chr(v) for v in vals)
         if self.kind == 'int':
-            return builtins.int(''.join(builtins.str(v) for v in vals))
-        return ''.join(LETTERS[v - 1] for v in vals)
+            return builtins.int(text)
+        return text
 
     def pin(self, eng):
         """assume every character equal to its value in the current model (render-time pinning)"""
@@ -108,11 +120,18 @@ def _c(x):
 
 
 def fresh_pay(eng, name, length, kind='int', alpha=3):
+    """characters are code points: digits '1'..chr(48+alpha) for ints (no leading zero, so every model is the decimal
+    text of a real int), letters 'a'..chr(96+alpha) for strings"""
     cs = []
+    base = 48 if kind == 'int' else 96
     for k in range(length):
         v = eng.fresh_int(f"{name}_{k}", 1, alpha)
-        cs.append(v.e)
+        cs.append(z3.simplify(v.e + base))
     return Pay(cs, name, kind)
+
+
+def pay_of_text(text, kind='str'):
+    return Pay([ord(ch) for ch in text], repr(text), kind)
 
 
 # ---------------------------------------------------------------- summaries of the real levenshtein_distance
@@ -176,7 +195,13 @@ def lev_dispatch(s, t):
     if builtins.isinstance(s, Pay) and builtins.isinstance(t, Pay):
         return SUMMARIES.apply(s, t)
     if builtins.isinstance(s, Pay) or builtins.isinstance(t, Pay):
-        raise Unsupported("levenshtein_distance between symbolic and concrete text")
+        if builtins.isinstance(s, builtins.str):
+            s = pay_of_text(s)
+        if builtins.isinstance(t, builtins.str):
+            t = pay_of_text(t)
+        if not (builtins.isinstance(s, Pay) and builtins.isinstance(t, Pay)):
+            raise Unsupported("levenshtein_distance between symbolic text and a non-string")
+        return SUMMARIES.apply(s, t)
     return SUMMARIES.real(s, t)
 
 
